@@ -726,14 +726,20 @@ def traverse(node):
             continue
 
         child = traversing.child
+        stack.append(traversing._replace(is_finished=True))
+        yield traversing
+
+        # Expand each container only once. (But equal leaf values - like None
+        # or small numbers - are often the same object, and they still count.)
+        if not isinstance(child, (list, tuple, dict, ParsedObject)):
+            continue
+
         child_id = id(child)
 
         if child_id in visited:
             continue
 
         visited.add(child_id)
-        stack.append(traversing._replace(is_finished=True))
-        yield traversing
 
         def extend(items):
             stack.extend(reversed(list(items)))
